@@ -39,7 +39,7 @@ static int hw_nreq = 0;
 static uint64_t hw_refused0 = 0;
 
 #define HW_TAB (1u << 15)
-static struct { void * p; uint64_t id; } hw_tab[HW_TAB];	/* p == (void *)1: tombstone */
+static struct { void * p; uint64_t id; size_t sz; } hw_tab[HW_TAB];	/* p == (void *)1: tombstone */
 static unsigned hw_tabused = 0;
 
 static unsigned
@@ -66,7 +66,7 @@ hw_find(void * p)
 }
 
 static void
-hw_add(void * p, uint64_t id)
+hw_add(void * p, uint64_t id, size_t sz)
 {
 	unsigned i = hw_hash(p), n;
 
@@ -76,6 +76,7 @@ hw_add(void * p, uint64_t id)
 				hw_tabused++;
 			hw_tab[i].p = p;
 			hw_tab[i].id = id;
+			hw_tab[i].sz = sz;
 			return;
 		}
 	}
@@ -90,6 +91,15 @@ hw_id(void * p)
 	long i = (p == NULL) ? -1 : hw_find(p);
 
 	return (i < 0 ? -1 : (long long)hw_tab[i].id);
+}
+
+/* requested size of a live library block, or 0 (black-box harnesses: the allocation behind a public pointer) */
+static size_t
+hw_size(void * p)
+{
+	long i = (p == NULL) ? -1 : hw_find(p);
+
+	return (i < 0 ? 0 : hw_tab[i].sz);
 }
 
 /* Forget everything (start of a case).  Blocks still live are reported by the caller first. */
@@ -174,7 +184,7 @@ __wrap_malloc(size_t sz)
 		fprintf(stderr, "hwrap: real malloc(%zu) failed\n", sz);
 		abort();
 	}
-	hw_add(p, id);
+	hw_add(p, id, sz);
 	hw_live++;
 	return (p);
 }
@@ -194,7 +204,7 @@ __wrap_calloc(size_t n, size_t sz)
 		fprintf(stderr, "hwrap: real calloc failed\n");
 		abort();
 	}
-	hw_add(p, id);
+	hw_add(p, id, n * sz);
 	hw_live++;
 	return (p);
 }
@@ -220,7 +230,7 @@ __wrap_realloc(void * old, size_t sz)
 		fprintf(stderr, "hwrap: real realloc(%zu) failed\n", sz);
 		abort();
 	}
-	hw_add(p, id);
+	hw_add(p, id, sz);
 	if (old == NULL)
 		hw_live++;
 	return (p);
